@@ -10,7 +10,7 @@ from concurrent.futures import ThreadPoolExecutor
 
 from .. import lib
 
-BYTE = {"EF": b"\xef", "BB": b"\xbb", "BF": b"\xbf", "1": b"1", "NL": b"\n", "NUL": b"\0"}
+BYTE = {"EF": b"\xef", "BB": b"\xbb", "BF": b"\xbf", "1": b"1", "NL": b"\n", "NUL": b"\0", "CR": b"\r", "SUB": b"\x1a"}
 PROGRAMS = ["", "1", "12", "1+1", " 1", "1\n", "1\r\n2", "#!/usr/bin/chai\n3", "var x = 4; x", "\"s\"", "1 +", "out(5); 5", "// c\n6",
             "def f() { 7 }; f()", "8\0", "9\0\0", "\0", "\r\n", "[1,2]", "nosuch()"]
 
